@@ -1,4 +1,7 @@
-/* C05 (b) STRETCH (thorough tier): r == a b (mod p) for secp256k1_fe_mul_inner (5x52) RELATIVE TO the uninterpreted 64x64
+/* STATUS: EXPERIMENT, NOT REGISTERED AS A UNIT (see engine/units/C05_arith.py): the steps part passes (764 s), the miter against the real
+ * function and the rule lemmas were undecided after 1800 s each; the congruence stays assumed residue.
+ *
+ * C05 (b) STRETCH (thorough tier): r == a b (mod p) for secp256k1_fe_mul_inner (5x52) RELATIVE TO the uninterpreted 64x64
  * multiplier umul of assumed_C05.h, by the function's own comment invariants "[d t4 t3 ...] = [p8 ... p0]".
  *
  * LABELLED FALLBACK of DESIGN 5/C05(b): cut points cannot be placed inside /repo code, so they are placed in a harness-side
